@@ -694,8 +694,8 @@ fn enc_parts(c: &EncCase) -> (Vec<Op>, PnReport) {
 
 pub fn check_encode_feed_poll(timeout: u64, prior: &[Op], r: &PnReport, lsb_first: bool, carrier: u8) -> Result<bool, Fail> {
     let mut sc = new_scanner(timeout);
-    let mut now = 0u64;
-    set_clock(0);
+    let mut now = crate::p_polling::clock_start(hash64(&(prior, r.number)));
+    set_clock(now);
     let mut had_traffic = false;
     for op in prior {
         match *op {
